@@ -124,7 +124,26 @@ def r07_1(ctx: Ctx, rep: Report) -> None:  # noqa: C901
             c = n.generators[0].ifs[0]
             if isinstance(c, ast.Compare) and isinstance(c.ops[0], ast.Eq) and src(c.left).endswith(".name") and "addgr_name" in src(c.comparators[0]) or (isinstance(c, ast.Compare) and isinstance(c.ops[0], ast.Eq) and src(c.left).endswith(".name") and "addrgroup" in src(c.comparators[0])):
                 sel_ok = True
-    if sel_ok:
+    # ... and the referenced name is read from the very address object that receives the members
+    from .common import single_env
+
+    senv = single_env(f.node)
+    recv_roots = set()
+    for a in appends:
+        c = chain(a.func.value)
+        if c:
+            recv_roots.add(c[0])
+    name_roots = set()
+    for n in own_nodes(f.node):
+        if isinstance(n, ast.ListComp) and n.generators and n.generators[0].ifs:
+            c0 = n.generators[0].ifs[0]
+            if isinstance(c0, ast.Compare) and isinstance(c0.ops[0], ast.Eq) and src(c0.left).endswith(".name"):
+                rhs = deep_resolve(c0.comparators[0], senv)
+                cc = chain(rhs)
+                name_roots.add(cc[0] if cc else src(rhs))
+    if sel_ok and recv_roots and name_roots and not (name_roots <= recv_roots):
+        rep.violation("functions._add_addgr_to_aces", f"group looked up by {sorted(name_roots)}, members attached to {sorted(recv_roots)}", "the group is not looked up by the reference of the address that receives its members: with different groups in source and destination one side gets the other side's members", where(f), inp="permit ip object-group A object-group B")
+    elif sel_ok:
         rep.ok("functions._add_addgr_to_aces: group lookup", "the group is chosen by equality of its name with the referenced name", where=where(f))
     else:
         rep.violation("functions._add_addgr_to_aces", "group lookup", "the attached group is not selected by name equality with the ACE's reference", where(f))
@@ -321,6 +340,50 @@ def r07_4(ctx: Ctx, rep: Report) -> None:
         rep.violation("ConfigParser.acls", f"keys {sorted(keys)}", f"the parsed ACL dict does not agree with the Acl constructor (unread: {miss})", where(pa))
 
 
+_RE_FLAGS = {"I": _re.I, "IGNORECASE": _re.I, "M": _re.M, "MULTILINE": _re.M, "S": _re.S, "DOTALL": _re.S, "X": _re.X, "VERBOSE": _re.X}
+
+
+def _fold_flags(e: Optional[ast.AST]) -> Optional[int]:
+    if e is None:
+        return 0
+    if isinstance(e, ast.Constant) and isinstance(e.value, int):
+        return e.value
+    if isinstance(e, ast.Attribute) and src(e.value) == "re" and e.attr in _RE_FLAGS:
+        return int(_RE_FLAGS[e.attr])
+    if isinstance(e, ast.BinOp) and isinstance(e.op, ast.BitOr):
+        a, b = _fold_flags(e.left), _fold_flags(e.right)
+        return None if a is None or b is None else a | b
+    return None
+
+
+def interface_filter(ctx: Ctx, rep: Report, rid: str = "R07.8") -> None:
+    """The filter that selects interface sections carrying an ACL binding finds the `ip access-group` line wherever it
+    stands in the section (first line or after other interface commands) - the writer of that text is the device."""
+    rep.rule(rid)
+    f = ctx.func("ConfigParser._interfaces_w_acl")
+    rep.instance()
+    calls = [n for n in own_nodes(f.node) if isinstance(n, ast.Call) and src(n.func) in ("re.search", "re.findall", "re.match", "re.fullmatch") and len(n.args) >= 2]
+    members = [n for n in own_nodes(f.node) if isinstance(n, ast.Compare) and len(n.ops) == 1 and isinstance(n.ops[0], ast.In) and isinstance(n.left, ast.Constant)]
+    samples = ["ip access-group NAME in", "description uplink\nip address 10.0.1.1 255.255.255.0\nip access-group NAME in", "ip address 10.0.1.1 255.255.255.0\nip access-group NAME out\nno shutdown"]
+    if calls:
+        c = calls[0]
+        pat = ctx.folder.fold(c.args[0], f.module, ctx.folder.local_env(f))
+        fl = _fold_flags(c.args[2] if len(c.args) > 2 else next((k.value for k in c.keywords if k.arg == "flags"), None))
+        if not isinstance(pat, str) or fl is None:
+            rep.violation(f.qualname, snippet(c), "the interface filter's pattern or flags are not constants: which sections are kept cannot be decided", where(f, c))
+            return
+        fn = {"re.search": _re.search, "re.findall": _re.findall, "re.match": _re.match, "re.fullmatch": _re.fullmatch}[src(c.func)]
+        missed = [t for t in samples if not fn(pat, t, fl)]
+        if missed:
+            rep.violation(f.qualname, f"{snippet(c)}", f"the filter does not find the binding in {missed[0]!r}: an interface whose `ip access-group` line is not the first line of its section loses its binding", where(f, c), inp="interface Ethernet1 / description x / ip access-group A in")
+        else:
+            rep.ok(f"{f.qualname}: {snippet(c, 60)}", "finds `ip access-group` on any line of the section", where=where(f, c))
+    elif members:
+        rep.ok(f"{f.qualname}: {snippet(members[0], 60)}", "substring test: position independent", where=where(f, members[0]))
+    else:
+        rep.violation(f.qualname, "filter", "no test for `ip access-group` in the section text was found", where(f))
+
+
 def r07_6(ctx: Ctx, rep: Report) -> None:
     """Configuration order: the drivers build their result lists in the order of the parsed sections."""
     rep.rule("R07.6")
@@ -353,6 +416,11 @@ def run(ctx: Ctx, rep: Report, tier: str) -> None:
     r07_3(ctx, rep)
     r07_4(ctx, rep)
     r07_6(ctx, rep)
+    # R07.7 no line of the configuration is refused before it is parsed (the normaliser accepts every string)
+    from .c01 import normaliser_total
+
+    normaliser_total(ctx, rep, rid="R07.7")
+    interface_filter(ctx, rep)
     # R07.5 section keys agree with object headers
     from .c06 import r06_1
 
